@@ -293,18 +293,28 @@ func xmlAddKeyElements(s Entry, parent *etree.Element) {
 	// retrieve the parent schema, we need to extract the key names
 	// values are the tree level names
 	parentSchema, levelsUp := s.GetFirstAncestorWithSchema()
-	// from the parent we get the keys as slice
+	// from the parent we get the keys as slice, in the order of the key statement
 	schemaKeys := parentSchema.GetSchemaKeys()
+	// the key levels of the tree are in the order of the sorted key names
+	sortedKeys := slices.Clone(schemaKeys)
+	slices.Sort(sortedKeys)
+	keyValues := map[string]string{}
 	var treeElem Entry = s
 	// the keys do match the levels up in the tree in reverse order
 	// hence we init i with levelUp and count down
-	for i := levelsUp - 1; i >= 0; i-- {
-		// skip if the element already exists
-		existingElem := parent.SelectElement(schemaKeys[i])
-		if existingElem == nil {
-			// and finally we create the patheleme key attributes
-			parent.CreateElement(schemaKeys[i]).SetText(treeElem.PathName())
-			treeElem = treeElem.GetParent()
+	for i := levelsUp - 1; i >= 0 && i < len(sortedKeys); i-- {
+		keyValues[sortedKeys[i]] = treeElem.PathName()
+		treeElem = treeElem.GetParent()
+	}
+	// the keys are the first child elements, in the order of the key statement
+	for idx, k := range schemaKeys {
+		keyElem := parent.SelectElement(k)
+		if keyElem != nil {
+			parent.RemoveChild(keyElem)
+		} else {
+			keyElem = etree.NewElement(k)
+			keyElem.SetText(keyValues[k])
 		}
+		parent.InsertChildAt(idx, keyElem)
 	}
 }
